@@ -750,6 +750,36 @@ impl AdvancePositions {
     }
 }
 
+/// Verification hooks: read / seed the private sequential-cursor state
+/// `(next_open_idx, adv_cumulative, ib_word_idx, ib_ones_before, last_ib_arg, last_ib_result)`.
+#[cfg(feature = "verif-hooks")]
+impl AdvancePositions {
+    #[doc(hidden)]
+    pub fn verif_cursor_state(&self) -> (usize, usize, usize, usize, usize, usize) {
+        let c = self.cursor.get();
+        (
+            c.next_open_idx,
+            c.adv_cumulative,
+            c.ib_word_idx,
+            c.ib_ones_before,
+            c.last_ib_arg,
+            c.last_ib_result,
+        )
+    }
+
+    #[doc(hidden)]
+    pub fn verif_set_cursor_state(&self, s: (usize, usize, usize, usize, usize, usize)) {
+        self.cursor.set(SequentialCursor {
+            next_open_idx: s.0,
+            adv_cumulative: s.1,
+            ib_word_idx: s.2,
+            ib_ones_before: s.3,
+            last_ib_arg: s.4,
+            last_ib_result: s.5,
+        });
+    }
+}
+
 impl AdvancePositionsCursor<'_> {
     /// Returns the current text position, or `None` if exhausted.
     #[inline]
